@@ -39,11 +39,14 @@ func overlayFor(patch string) (map[string][]byte, error) {
 	}
 	defer os.RemoveAll(tmp)
 	for _, f := range files {
+		os.MkdirAll(filepath.Dir(filepath.Join(tmp, f)), 0o755)
 		src, err := os.ReadFile(filepath.Join(core.RepoDir(), f))
+		if os.IsNotExist(err) {
+			continue // a file the patch creates
+		}
 		if err != nil {
 			return nil, err
 		}
-		os.MkdirAll(filepath.Dir(filepath.Join(tmp, f)), 0o755)
 		if err := os.WriteFile(filepath.Join(tmp, f), src, 0o644); err != nil {
 			return nil, err
 		}
